@@ -52,7 +52,7 @@ Definition complete (s : ser) (c : cfg) : bool :=
   | Serpent => c_recreate c
   | Marshal => c_convert c && c_recreate c
   | Json => c_default c && c_recreate c
-  | Msgpack => c_default c && c_object_hook c && c_ext_hook c
+  | Msgpack => c_default c && (c_object_hook c || c_recreate c) && c_ext_hook c   (* classes recreated by an object_hook or, since the C04 repair, by recreate_classes after unpacking *)
   end.
 Definition hooks_complete (tb : table) : bool :=
   forallb (fun s => complete s (tb s Arg) && complete s (tb s Kwarg) && complete s (tb s Result)) all_sers.
